@@ -667,4 +667,384 @@ theorem expectedFrom_eq (p : Pattern) : ∀ (us : Url) (ps : List (String × Str
     | cons u us =>
       cases hs : a.seg <;> simp [expectedFrom, bindParams, hs, ih]
 
+/-! ### most specific, with the precise no-backtracking exception -/
+
+/-- patterns of a residual list -/
+def pats (res : Res V) : List Pattern := res.map (·.1)
+
+theorem mem_stepP {k : Key} {ps : List Pattern} {rest : Pattern} :
+    rest ∈ stepP k ps ↔ ∃ a, (a :: rest) ∈ ps ∧ a.seg.key = k := by
+  unfold stepP
+  rw [List.mem_filterMap]
+  constructor
+  · rintro ⟨p, hp, h⟩
+    cases p with
+    | nil => simp at h
+    | cons a r =>
+      by_cases hk : a.seg.key = k
+      · simp [hk] at h; subst h; exact ⟨a, hp, hk⟩
+      · simp [hk] at h
+  · rintro ⟨a, hp, hk⟩
+    exact ⟨a :: rest, hp, by simp [hk]⟩
+
+theorem shadowed_mono (q : Pattern) : ∀ (A B : List Pattern) (us : Url),
+    (∀ p ∈ A, p ∈ B) → shadowed A q us = true → shadowed B q us = true := by
+  induction q with
+  | nil => intro A B us _ h; simp [shadowed] at h
+  | cons a q ih =>
+    intro A B us hsub h
+    cases us with
+    | nil => simp [shadowed] at h
+    | cons u us =>
+      simp only [shadowed, Bool.or_eq_true, Bool.and_eq_true] at h ⊢
+      rcases h with ⟨hpl, hany⟩ | h
+      · left
+        refine ⟨hpl, ?_⟩
+        rw [List.any_eq_true] at hany ⊢
+        obtain ⟨r, hr, hb⟩ := hany
+        exact ⟨r, hsub r hr, hb⟩
+      · right
+        apply ih _ _ us _ h
+        intro p hp
+        obtain ⟨x, hx, hk⟩ := mem_stepP.mp hp
+        exact mem_stepP.mpr ⟨x, hsub _ hx, hk⟩
+
+theorem pats_step_sub (k : Key) (res : Res V) : ∀ p ∈ stepP k (pats res), p ∈ pats (step k res) := by
+  intro p hp
+  obtain ⟨a, ha, hk⟩ := mem_stepP.mp hp
+  unfold pats at ha ⊢
+  rw [List.mem_map] at ha ⊢
+  obtain ⟨⟨ps, v⟩, hm, heq⟩ := ha
+  simp only at heq
+  subst heq
+  exact ⟨(p, v), mem_step.mpr ⟨a, hm, hk⟩, rfl⟩
+
+theorem pats_step_sup (k : Key) (res : Res V) : ∀ p ∈ pats (step k res), p ∈ stepP k (pats res) := by
+  intro p hp
+  unfold pats at hp
+  rw [List.mem_map] at hp
+  obtain ⟨⟨ps, v⟩, hm, heq⟩ := hp
+  simp only at heq
+  subst heq
+  obtain ⟨a, ha, hk⟩ := mem_step.mp hm
+  exact mem_stepP.mpr ⟨a, List.mem_map.mpr ⟨(a :: ps, v), ha, rfl⟩, hk⟩
+
+/-- shadowing seen from one node down: lifting along the edge the walk took -/
+theorem shadowed_lift {res : Res V} {a : Part} {rest : Pattern} {u : Part} {us : Url}
+    (h : shadowed (pats (step a.seg.key res)) rest us = true) :
+    shadowed (pats res) (a :: rest) (u :: us) = true := by
+  simp only [shadowed, Bool.or_eq_true]
+  right
+  exact shadowed_mono rest _ _ us (pats_step_sup _ res) h
+
+theorem shadowed_here {res : Res V} {a : Part} {rest : Pattern} {u : Part} {us : Url}
+    (ha : a.seg.isPar = true) {b : Part} {r : List Part} {v : Option V} (hb : (b :: r, v) ∈ res)
+    {s : String} (hbs : b.seg = .lit s) (hus : u.seg = .lit s) :
+    shadowed (pats res) (a :: rest) (u :: us) = true := by
+  simp only [shadowed, Bool.or_eq_true, Bool.and_eq_true]
+  left
+  refine ⟨⟨ha, by simp [hus, segIsLit]⟩, ?_⟩
+  rw [List.any_eq_true]
+  exact ⟨b :: r, List.mem_map.mpr ⟨(b :: r, v), hb, rfl⟩, by simp [hbs, hus]⟩
+
+/-- The greedy, non-backtracking walk, precisely: the selected entry is at least as specific as every valued
+    entry that matches, except entries passed over for the selected `*` that are SHADOWED; and when the walk
+    falls back to a wildcard met higher up, every valued entry below this node that matches is shadowed. -/
+theorem lookGo_most_specific_sh (us : List Part) :
+    ∀ (res : Res V) (fw : Option (Fallback V)) (params : List (String × String)) (path : List Part),
+    WildLast res → Aligned res us →
+    (lookGo res fw params path us).isMatch = true →
+    (∃ q, (q, (lookGo res fw params path us).value) ∈ res ∧ matchesLax q us = true ∧
+      ∀ e ∈ res, e.2 ≠ none → matchesLax e.1 us = true →
+        specLE e.1 q = true ∨ (passedOver q e.1 = true ∧ shadowed (pats res) e.1 us = true)) ∨
+    ((∃ f, fw = some f ∧ (lookGo res fw params path us).value = f.value) ∧
+      ∀ e ∈ res, e.2 ≠ none → matchesLax e.1 us = true → shadowed (pats res) e.1 us = true) := by
+  induction us with
+  | nil =>
+    intro res fw params path hwl _ h
+    rcases lookGo_nil res fw params path with ⟨v', hn, heq⟩ | ⟨hnv, ⟨wv, hh, hw, heq⟩ | ⟨hnw, ⟨f, hf, heq⟩ | ⟨_, heq⟩⟩⟩
+    · rw [heq]
+      refine .inl ⟨[], nodeValue_some hn, by simp [matchesLax, matchesG], ?_⟩
+      intro ⟨q, ov⟩ _ _ _
+      cases q <;> exact .inl rfl
+    · rw [heq]
+      obtain ⟨w, hwm, hws, _⟩ := wildNode_entry hwl hw
+      refine .inl ⟨[w], hwm, by simp [matchesLax, matchesG, hws], ?_⟩
+      intro ⟨q, ov⟩ hmem hov hm
+      cases q with
+      | nil => exact absurd (nodeValue_none hnv hmem) hov
+      | cons a rest =>
+        have hm' : matchesLax (a :: rest) [] = true := hm
+        cases has : a.seg with
+        | wild =>
+          have := wildLast_wild_head (hwl _ hmem) has
+          subst this
+          left; simp [specLE, has, hws]
+        | lit s => simp [matchesLax, matchesG, has] at hm'
+        | par n => simp [matchesLax, matchesG, has] at hm'
+    · rw [heq]
+      refine .inr ⟨⟨f, hf, rfl⟩, ?_⟩
+      intro ⟨q, ov⟩ hmem hov hm
+      exfalso
+      cases q with
+      | nil => exact hov (nodeValue_none hnv hmem)
+      | cons a rest =>
+        have hm' : matchesLax (a :: rest) [] = true := hm
+        cases has : a.seg with
+        | wild => exact wildNode?_none hnw hmem has
+        | lit s => simp [matchesLax, matchesG, has] at hm'
+        | par n => simp [matchesLax, matchesG, has] at hm'
+    · rw [heq] at h; simp [LookupResult.none] at h
+  | cons u us ih =>
+    intro res fw params path hwl hal h
+    have hconst : ∀ (a : Part) (rest : List Part) (v : Option V) (s : String),
+        (a :: rest, v) ∈ res → a.seg = .lit s → u.seg = .lit s → constFlag? res s = some u.host := by
+      intro a rest v s hmem has hus
+      cases hc : constFlag? res s with
+      | none => exact absurd has (constFlag?_none hc hmem)
+      | some f =>
+        obtain ⟨p0, r0, v0, hm0, hp0, hf0⟩ := constFlag?_some hc
+        have := hal.head hm0 (.inl (.inl ⟨s, hp0, hus⟩))
+        rw [← hf0, this]
+    -- a wildcard entry at this node is always recorded as the fallback (flags agree under `Aligned`)
+    have hwildrec : ∀ (w : Part) (r : List Part) (v : Option V), (w :: r, v) ∈ res → w.seg = .wild →
+        ∃ wv, wildNode? res = some (wv, u.host) := by
+      intro w r v hm hws
+      cases hwn : wildNode? res with
+      | none => exact absurd hws (wildNode?_none hwn hm)
+      | some wf =>
+        obtain ⟨wv, f⟩ := wf
+        obtain ⟨w0, r0, hm0, hw0, hf0⟩ := wildNode?_some hwn
+        have := hal.head hm0 (.inr hw0)
+        exact ⟨wv, by rw [← hf0, this]⟩
+    -- the answer comes from the fallback computed at this node
+    have hfw : ∀ (val : Option V), (∃ f, nextFw res fw params path u = some f ∧ val = f.value) →
+        (∀ e ∈ res, e.2 ≠ none → matchesLax e.1 (u :: us) = true →
+          (∃ w, e.1 = [w] ∧ w.seg = .wild) ∨ shadowed (pats res) e.1 (u :: us) = true) →
+        (∃ q, (q, val) ∈ res ∧ matchesLax q (u :: us) = true ∧
+          ∀ e ∈ res, e.2 ≠ none → matchesLax e.1 (u :: us) = true →
+            specLE e.1 q = true ∨ (passedOver q e.1 = true ∧ shadowed (pats res) e.1 (u :: us) = true)) ∨
+        ((∃ f, fw = some f ∧ val = f.value) ∧
+          ∀ e ∈ res, e.2 ≠ none → matchesLax e.1 (u :: us) = true → shadowed (pats res) e.1 (u :: us) = true) := by
+      rintro val ⟨f, hf, hv⟩ hcls
+      have hrec : ∀ wv, wildNode? res = some (wv, u.host) →
+          nextFw res fw params path u = some ⟨wv, params, path ++ [⟨u.host, .wild⟩]⟩ := by
+        intro wv hw; unfold nextFw; rw [hw]; simp
+      by_cases hex : ∃ wv, wildNode? res = some (wv, u.host)
+      · obtain ⟨wv, hw⟩ := hex
+        rw [hrec wv hw] at hf; simp at hf; subst hf
+        simp at hv; subst hv
+        obtain ⟨w, hwm, hws, _⟩ := wildNode_entry hwl hw
+        refine .inl ⟨[w], hwm, by simp [matchesLax, matchesG, hws], ?_⟩
+        intro e hmem hov hm
+        rcases hcls e hmem hov hm with ⟨w', hew, hws'⟩ | hsh
+        · left; rw [hew]; simp [specLE, hws, hws']
+        · obtain ⟨q, ov⟩ := e
+          cases q with
+          | nil => simp [matchesLax, matchesG] at hm
+          | cons a rest =>
+            by_cases has : a.seg = .wild
+            · have := wildLast_wild_head (hwl _ hmem) has
+              subst this
+              left; simp [specLE, has, hws]
+            · right; exact ⟨by simp [passedOver, hws, has], hsh⟩
+      · have hnf : nextFw res fw params path u = fw := by
+          unfold nextFw
+          cases hwn : wildNode? res with
+          | none => rfl
+          | some wf =>
+            obtain ⟨wv, hh⟩ := wf
+            by_cases hhu : hh = u.host
+            · exact absurd ⟨wv, by rw [hwn, hhu]⟩ hex
+            · simp [hhu]
+        rw [hnf] at hf
+        refine .inr ⟨⟨f, hf, hv⟩, ?_⟩
+        intro e hmem hov hm
+        rcases hcls e hmem hov hm with ⟨w, hew, hws⟩ | hsh
+        · exfalso
+          obtain ⟨q, ov⟩ := e
+          simp only at hew
+          subst hew
+          exact hex (hwildrec w [] ov hmem hws)
+        · exact hsh
+    rcases lookGo_cons res fw params path u us with ⟨s, hs, hc, heq⟩ | ⟨hnc, ⟨n, hpc, hne2, heq⟩ | ⟨hnp, heq⟩⟩
+    · -- constant child
+      rw [heq] at h ⊢
+      have hk : ∀ p : Part, p.seg.key = Key.lit s → trieStep p u := fun p hp => trieStep_lit hp hs
+      obtain ⟨b0, r0, v0, hb0, hb0s, _⟩ := constFlag?_some hc
+      -- classification of the matching entries at this node, given what holds one level down
+      have hcls : (∀ e ∈ step (Key.lit s) res, e.2 ≠ none → matchesLax e.1 us = true →
+            shadowed (pats (step (Key.lit s) res)) e.1 us = true) →
+          ∀ e ∈ res, e.2 ≠ none → matchesLax e.1 (u :: us) = true →
+            (∃ w, e.1 = [w] ∧ w.seg = .wild) ∨ shadowed (pats res) e.1 (u :: us) = true := by
+        intro hdown ⟨q, ov⟩ hmem hov hm
+        cases q with
+        | nil => simp [matchesLax, matchesG] at hm
+        | cons a rest =>
+          rcases matchesLax_cons_inv hm with ⟨haw, hr⟩ | ⟨_, hacc, hmr⟩
+          · subst hr; exact .inl ⟨a, rfl, haw⟩
+          · right
+            cases has : a.seg with
+            | wild => rw [has] at hacc; simp [segAccepts] at hacc
+            | par n => exact shadowed_here (by simp [has, Seg.isPar]) hb0 hb0s hs
+            | lit s' =>
+              rw [has, hs] at hacc
+              simp [segAccepts] at hacc
+              subst hacc
+              have hak : a.seg.key = Key.lit s := by rw [has]; rfl
+              have := hdown (rest, ov) (mem_step.mpr ⟨a, hmem, hak⟩) hov hmr
+              rw [← hak] at this
+              exact shadowed_lift this
+      rcases ih _ _ params (path ++ [u]) (hwl.step _) (hal.step hk) h with ⟨q', hq', hm', hall⟩ | ⟨hr, hdown⟩
+      · left
+        obtain ⟨p, hp, hpk⟩ := mem_step.mp hq'
+        have hps : p.seg = .lit s := key_eq_lit hpk
+        refine ⟨p :: q', hp, by simp [matchesLax, matchesG, hps, segAccepts, hs]; exact hm', ?_⟩
+        intro ⟨q, ov⟩ hmem hov hm
+        cases q with
+        | nil => simp [matchesLax, matchesG] at hm
+        | cons a rest =>
+          rcases matchesLax_cons_inv hm with ⟨haw, _⟩ | ⟨_, hacc, hmr⟩
+          · left; simp [specLE, haw, hps, Seg.rank]
+          · cases has : a.seg with
+            | wild => left; simp [specLE, has, hps, Seg.rank]
+            | par n => left; simp [specLE, has, hps, Seg.rank]
+            | lit s' =>
+              rw [has, hs] at hacc
+              simp [segAccepts] at hacc
+              subst hacc
+              have hak : a.seg.key = Key.lit s := by rw [has]; rfl
+              have hrk : Seg.rank a.seg = Seg.rank p.seg := by rw [has, hps]
+              rcases hall (rest, ov) (mem_step.mpr ⟨a, hmem, hak⟩) hov hmr with h1 | ⟨h1, h2⟩
+              · left; simp [specLE, hrk, h1]
+              · right
+                refine ⟨?_, by rw [← hak] at h2; exact shadowed_lift h2⟩
+                cases q' with
+                | nil => simp [passedOver] at h1
+                | cons x q'' => simp [passedOver, hak, hpk, h1]
+      · exact hfw _ hr (hcls hdown)
+    · -- parametric child
+      rw [heq] at h ⊢
+      have hk : ∀ p : Part, p.seg.key = Key.par → trieStep p u := fun p hp => trieStep_par hp
+      have hnolit : ∀ (a : Part) (rest : List Part) (v : Option V) (s : String),
+          (a :: rest, v) ∈ res → a.seg = .lit s → u.seg ≠ .lit s := by
+        intro a rest v s hmem has hus
+        exact hnc s hus (hconst a rest v s hmem has hus)
+      have hcls : (∀ e ∈ step Key.par res, e.2 ≠ none → matchesLax e.1 us = true →
+            shadowed (pats (step Key.par res)) e.1 us = true) →
+          ∀ e ∈ res, e.2 ≠ none → matchesLax e.1 (u :: us) = true →
+            (∃ w, e.1 = [w] ∧ w.seg = .wild) ∨ shadowed (pats res) e.1 (u :: us) = true := by
+        intro hdown ⟨q, ov⟩ hmem hov hm
+        cases q with
+        | nil => simp [matchesLax, matchesG] at hm
+        | cons a rest =>
+          rcases matchesLax_cons_inv hm with ⟨haw, hr⟩ | ⟨_, hacc, hmr⟩
+          · subst hr; exact .inl ⟨a, rfl, haw⟩
+          · right
+            cases has : a.seg with
+            | wild => rw [has] at hacc; simp [segAccepts] at hacc
+            | lit s' =>
+              rw [has] at hacc
+              simp [segAccepts] at hacc
+              exact absurd hacc (hnolit a rest ov s' hmem has)
+            | par m =>
+              have hak : a.seg.key = Key.par := by rw [has]; rfl
+              have := hdown (rest, ov) (mem_step.mpr ⟨a, hmem, hak⟩) hov hmr
+              rw [← hak] at this
+              exact shadowed_lift this
+      rcases ih _ _ _ (path ++ [⟨u.host, .par n⟩]) (hwl.step _) (hal.step hk) h with ⟨q', hq', hm', hall⟩ | ⟨hr, hdown⟩
+      · left
+        obtain ⟨p, hp, hpk⟩ := mem_step.mp hq'
+        obtain ⟨n', hps⟩ := key_eq_par hpk
+        refine ⟨p :: q', hp, by simp [matchesLax, matchesG, hps, segAccepts, hne2]; exact hm', ?_⟩
+        intro ⟨q, ov⟩ hmem hov hm
+        cases q with
+        | nil => simp [matchesLax, matchesG] at hm
+        | cons a rest =>
+          rcases matchesLax_cons_inv hm with ⟨haw, _⟩ | ⟨_, hacc, hmr⟩
+          · left; simp [specLE, haw, hps, Seg.rank]
+          · cases has : a.seg with
+            | wild => left; simp [specLE, has, hps, Seg.rank]
+            | lit s' =>
+              rw [has] at hacc
+              simp [segAccepts] at hacc
+              exact absurd hacc (hnolit a rest ov s' hmem has)
+            | par m =>
+              have hak : a.seg.key = Key.par := by rw [has]; rfl
+              have hr : Seg.rank a.seg = Seg.rank p.seg := by rw [has, hps]; rfl
+              rcases hall (rest, ov) (mem_step.mpr ⟨a, hmem, hak⟩) hov hmr with h1 | ⟨h1, h2⟩
+              · left; simp [specLE, hr, h1]
+              · right
+                refine ⟨?_, by rw [← hak] at h2; exact shadowed_lift h2⟩
+                cases q' with
+                | nil => simp [passedOver] at h1
+                | cons x q'' => simp [passedOver, hak, hpk, h1]
+      · exact hfw _ hr (hcls hdown)
+    · -- stuck
+      rw [heq] at h ⊢
+      obtain ⟨f, hf, hst⟩ := stuck_match h
+      rw [hst]
+      apply hfw _ ⟨f, hf, rfl⟩
+      intro ⟨q, ov⟩ hmem hov hm
+      cases q with
+      | nil => simp [matchesLax, matchesG] at hm
+      | cons a rest =>
+        rcases matchesLax_cons_inv hm with ⟨haw, hr⟩ | ⟨_, hacc, hmr⟩
+        · subst hr; exact .inl ⟨a, rfl, haw⟩
+        · exfalso
+          cases has : a.seg with
+          | wild => rw [has] at hacc; simp [segAccepts] at hacc
+          | lit s' =>
+            rw [has] at hacc
+            simp [segAccepts] at hacc
+            exact hnc s' hacc (hconst a rest ov s' hmem has hacc)
+          | par m =>
+            rw [has] at hacc
+            simp [segAccepts] at hacc
+            cases hpc : parChild? res with
+            | none => have := parChild?_none hpc hmem; simp [has, Seg.isPar] at this
+            | some nf =>
+              obtain ⟨n0, f0⟩ := nf
+              obtain ⟨p0, r0, v0, hm0, hp0, hf0⟩ := parChild?_some hpc
+              have hh := hal.head hm0 (.inl (.inr (by simp [hp0, Seg.isPar])))
+              have := hnp n0 (by rw [hpc, ← hf0, hh])
+              exact hacc this
+
+
+theorem most_specific_of_inv {pt : PTree} {es : List Endpoint} (hinv : Inv pt es) (us : List Part)
+    (hfl : boundaryMix es us = false)
+    {q : Pattern} {i : Nat} (hl : (lookupParts pt.tree us).value = some i) (hq : (q, some i) ∈ pt.tree)
+    {e : Endpoint} (hep : e.parts = q) : mostSpecificFor es us e = true := by
+  have hmatch : (lookupParts pt.tree us).isMatch = true := lookGo_value_isMatch us pt.tree none [] [] i hl
+  rcases lookGo_most_specific_sh us pt.tree none [] [] hinv.wl (tree_aligned hinv hfl) hmatch with
+    ⟨q', hq', _, hall⟩ | ⟨⟨f, hf, _⟩, _⟩
+  · have hl' : (lookGo pt.tree none [] [] us).value = some i := hl
+    rw [hl'] at hq'
+    have := hinv.entry_uniq hq hq'
+    subst this
+    have hsub : ∀ p ∈ pats pt.tree, p ∈ es.map (·.parts) := by
+      intro p hp
+      unfold pats at hp
+      rw [List.mem_map] at hp
+      obtain ⟨⟨p', ov⟩, hm, heq⟩ := hp
+      simp only at heq
+      subst heq
+      obtain ⟨x, hx, hpx⟩ := hinv.dom hm
+      rw [hpx, trunc_of_wildLast _ (hinv.allwl x hx)]
+      exact List.mem_map.mpr ⟨x, hx, rfl⟩
+    unfold mostSpecificFor
+    rw [List.all_eq_true]
+    intro e' he'
+    cases hm : «matches» e'.parts us with
+    | false => simp
+    | true =>
+      have hlax := lax_of_matches _ _ hm
+      obtain ⟨j, hj⟩ := hinv.cov he' (wildLast_of_matchesLax _ _ hlax)
+      rw [hep]
+      rcases hall _ hj (by simp) hlax with h1 | ⟨h1, h2⟩
+      · simp [h1]
+      · have := shadowed_mono _ _ _ us hsub h2
+        simp [h1, this]
+  · simp at hf
+
 end LunarVerif.C13
